@@ -1,6 +1,7 @@
 ---------------------------- MODULE BalanceTrace ----------------------------
 (* Trace validation for Balance (C02).  A trace is one recorded call of                      *)
 (* balance_stoichiometry: the problem as the events Shape, SetEntry*, Classify, [Witness],   *)
+(* [Peer],                                                                                   *)
 (* [Dupl], Mode                                                                              *)
 (* followed by Result(obs).  The events are replayed through the actions of Balance; the     *)
 (* Result event fires Accept(obs), which is enabled iff the observed outcome is admissible   *)
@@ -28,6 +29,7 @@ Step(e) ==
       [] e.ev = "Classify" -> Classify
       [] e.ev = "Unclassified" -> Unclassified
       [] e.ev = "Witness"  -> Witness(e.x)
+      [] e.ev = "Peer"     -> Peer(e.x)
       [] e.ev = "Dupl"     -> ChooseDupl(PairSet(e.pairs))
       [] e.ev = "Mode"     -> ChooseMode(e.m)
       [] e.ev = "Form"     -> ChooseForm(e.f)
